@@ -18,7 +18,8 @@
 From Coq Require Import NArith List Bool.
 From AV Require Import Generated.Table Spec.Utf8 Spec.Vt Spec.Sgr Spec.Io Model.Base Model.Parser
   Model.Wincon Model.Stream Model.WinconStream
-  Proofs.TableFacts Proofs.ParserSim Proofs.WinconRuns Proofs.WinconSpecRuns Proofs.WinconConsole.
+  Proofs.TableFacts Proofs.ParserSim Proofs.WinconRuns Proofs.WinconSpecRuns Proofs.WinconConsole Generated.WinconFn Proofs.WinconGen
+  Generated.WinconStreamFn Proofs.WinconStreamGen.
 Import ListNotations.
 Local Open Scope N_scope.
 
@@ -170,3 +171,48 @@ Theorem c18_example :
                     mkCC (Some 1) None [32; 119; 111; 114; 108; 100] (inl 6)] 0,
           ROk).
 Proof. vm_compute. eexists. reflexivity. Qed.
+
+(* ---- the tie by translation --------------------------------------------------------- *)
+
+(* WinconStream pulls its runs with next_bytes (Model/WinconStream: wincon_next); the function
+   translated from the Rust source (Generated/WinconFn.g_next_bytes, tools/gen_fn_wincon.py) is
+   that model, up to the order of the result components ([next_shape]), panics included *)
+Theorem c18_translated_next_bytes_is_model :
+  forall bs p c, g_next_bytes bs p c = next_shape (wincon_next bs p c).
+Proof. exact g_next_bytes_eq. Qed.
+
+Theorem c18_translated_extract_next_is_model :
+  forall bs p c, g_extract_next bs p c = extract_next bs p c.
+Proof. exact translated_extract_next_is_model. Qed.
+
+(* ---- the Rust functions themselves -----------------------------------------------------
+   Generated/WinconStreamFn.v is the TRANSLATION (tools/rs2v, tools/gen_fn_stream.py) of
+   cap_wincon_color / write_all / write / write_fmt of crates/anstream/src/wincon.rs and of the
+   `impl io::Write for WinconStream` methods that delegate to them, regenerated from the
+   working tree on every run.  The translated code computes exactly what the hand model -- the
+   subject of every theorem above -- computes (wconv_n / wconv_u only reorder the result triple
+   and rename io::Result to sres).  (fmt::Adapter and write_vectored are hand-modelled,
+   token-pinned; the console, extract_next and the anstyle accessors are vocabulary: see
+   tools/gen_fn_stream.py.) *)
+Theorem c18_translated_cap_wincon_color_is_model :
+  forall c, g_cap_wincon_color c = Some (cap_wincon_color c).
+Proof. exact g_cap_wincon_color_eq. Qed.
+
+Theorem c18_translated_write_all_is_model :
+  forall raw s buf, wconv_u (g_wc_write_all raw s buf) = wc_write_all s buf raw.
+Proof. exact g_wc_write_all_eq. Qed.
+
+Theorem c18_translated_write_is_model :
+  forall raw s buf, wconv_n (g_wc_write raw s buf) = wc_write s buf raw.
+Proof. exact g_wc_write_eq. Qed.
+
+Theorem c18_translated_write_fmt_is_model :
+  forall raw s frags, wconv_u (g_wc_write_fmt raw s frags) = wc_write_fmt s frags raw.
+Proof. exact g_wc_write_fmt_eq. Qed.
+
+(* the Write methods of WinconStream { raw, state }, any operation sequence *)
+Theorem c18_translated_stream_is_model :
+  forall ops x,
+  match g_wcs_run x ops with Some (x1, rs) => Some (wcs_state x1, wcs_raw x1, rs) | None => None end
+  = wc_run_ops (wcs_state x) (wcs_raw x) ops.
+Proof. exact translated_wincon_stream_is_model. Qed.
